@@ -33,6 +33,11 @@ Bit(x, i) == (x \div (2 ^ i)) % 2 = 1
 KAddNode == 1  KAddEdge == 2  KDelEdge == 3  KDelNode == 4  KSwap == 5
 KSetAttr == 6  KUndo == 7     KRedo == 8     KPaint == 9
 KEnable == 10  KDisable == 11
+\* primitive actions called directly (C01 names them): the action, then .inverse(), then .inverse() of that
+\*  21 AddNode n t tid lid   22 DeleteNode n   23 AddEdge u v   24 DeleteEdge u v
+\*  25 UpdateTrackIDs start newT newL   26 UpdateNodeSeg n strokeBits added   27 UpdateNodeAttrs n key val
+KPAddNode == 21  KPDelNode == 22  KPAddEdge == 23  KPDelEdge == 24  KPUpdTids == 25  KPUpdSeg == 26  KPUpdAttrs == 27
+IsPrim(c) == c[1] \in 21..27
 \* bit i of a feature mask (calls 10 / 11); bit 8 = a feature nobody manages
 FeatBits == <<"area", "iou", "circ", "lid", "pos", "tid", "perim", "axes">>
 FeatSet(m) == {FeatBits[i] : i \in {j \in 1..Len(FeatBits) : Bit(m, j - 1)}}
@@ -58,6 +63,24 @@ AddNodeArgs(c) ==
 Norm(r) == [s |-> r.s, ok |-> r.ok, err |-> r.err, emit |-> r.emit, ret |-> r.ok]
 
 IsEdit(c) == c[1] \notin {KUndo, KRedo, KEnable, KDisable}
+\* raw result of a primitive call (ps = <<the applied primitive>>)
+PrimRaw(S, c) ==
+    CASE c[1] = KPAddNode  -> PAddNode(S, c[2], [NoAttrs EXCEPT !.time = c[3], !.tid = c[4], !.lid = c[5],
+                                                           !.pos = IF HasSeg THEN NoPos ELSE UserPos(c[2])],
+                                        IF HasSeg THEN Stroke(c[3], 1) ELSE {}, ~HasSeg)
+      [] c[1] = KPDelNode  -> PDelNode(S, c[2], {}, TRUE)
+      [] c[1] = KPAddEdge  -> PAddEdge(S, c[2], c[3], NoAttrs)
+      [] c[1] = KPDelEdge  -> PDelEdge(S, c[2], c[3])
+      [] c[1] = KPUpdTids  -> PUpdTids(S, c[2], c[3], c[4])
+      [] c[1] = KPUpdSeg   -> PUpdSeg(S, c[2], IF Has(S, c[2]) THEN Stroke(S.time[c[2]], c[3]) ELSE {}, c[4] = 1)
+      [] c[1] = KPUpdAttrs -> PUpdAttrs(S, c[2], KeyName(c[3]), c[4])
+PrimNorm(r) == [s |-> r.s, ok |-> r.ok, err |-> r.err, emit |-> <<>>, ret |-> r.ok]
+\* the action, its inverse, the inverse of the inverse: <<result, after inverse, after inverse of inverse>>
+PrimTriple(S, c) ==
+    LET r == PrimRaw(S, c)
+        u == IF r.ok THEN InvPrim(r.s, r.ps[1]) ELSE r
+        v == IF r.ok /\ u.ok THEN InvPrim(u.s, u.ps[1]) ELSE u
+    IN <<r, u, v>>
 IsSwitch(c) == c[1] \in {KEnable, KDisable}
 NormSw(r) == [s |-> r.s, ok |-> r.ok, err |-> r.err, emit |-> r.emit, ret |-> r.ok]
 Ords(c) == IF c[1] = KPaint THEN {1, 2, 3, 4} ELSE IF c[1] \in {KAddNode, KDelNode} THEN {1, 2} ELSE {1}
@@ -71,6 +94,7 @@ StepOrd(S, c, ord) ==
       [] c[1] = KSetAttr -> Norm(UUpdAttrs(S, c[2], KeyName(c[3]), c[4]))
       [] c[1] = KUndo    -> Undo(S)
       [] c[1] = KRedo    -> Redo(S)
+      [] IsPrim(c)       -> PrimNorm(PrimRaw(S, c))
       [] c[1] = KEnable  -> NormSw(Enable(S, FeatSet(c[2]), Bit(c[2], 8), c[3] = 1))
       [] c[1] = KDisable -> NormSw(Disable(S, FeatSet(c[2]), Bit(c[2], 8)))
       [] c[1] = KPaint   ->
@@ -96,6 +120,27 @@ Grow(EE, X) == LET Y == X \cup {e[2] : e \in {f \in EE : f[1] \in X}}
 Comp(O, a)    == Grow(O.E, {a})                                    \* weak component
 LinE(O)       == {e \in O.E : OutDeg(O, e[1]) < 2}                 \* edges not leaving a division
 Segment(O, a) == Grow(LinE(O), {a})                                \* unbranched segment
+
+\* documented preconditions of the primitives (the domain of C01 for them)
+Desc(O, n) == LET RECURSIVE G(_)
+                  G(X) == LET Y == X \cup {e[2] : e \in {f \in O.E : f[1] \in X}} IN IF Y = X THEN X ELSE G(Y)
+              IN G({n})
+PrimPre(O, c) ==
+    CASE c[1] = KPAddNode  -> /\ c[2] \in Node /\ ~Has(O, c[2])
+                              /\ (HasSeg => \A q \in Stroke(c[3], 1) : O.seg[q] = 0)          \* paints onto background
+      [] c[1] = KPDelNode  -> Has(O, c[2]) /\ InDeg(O, c[2]) = 0 /\ OutDeg(O, c[2]) = 0       \* no incident edges
+      [] c[1] = KPAddEdge  -> Has(O, c[2]) /\ Has(O, c[3]) /\ <<c[2], c[3]>> \notin O.E
+      [] c[1] = KPDelEdge  -> <<c[2], c[3]>> \in O.E
+      \* the new id is not found downstream of the relabelled segment
+      [] c[1] = KPUpdTids  -> /\ Has(O, c[2])
+                              /\ \A d \in Desc(O, c[2]) : O.tid[d] = O.tid[c[2]] \/ O.tid[d] # c[3]
+                              /\ \A d \in Desc(O, c[2]) : O.tid[d] = O.tid[c[2]] => d \in Segment(O, c[2])
+      [] c[1] = KPUpdSeg   -> /\ Has(O, c[2]) /\ HasSeg
+                              /\ LET st == Stroke(O.time[c[2]], c[3]) IN
+                                 IF c[4] = 1 THEN \A q \in st : O.seg[q] = 0
+                                 ELSE st \subseteq MaskOf(O, c[2]) /\ st # MaskOf(O, c[2])
+      [] c[1] = KPUpdAttrs -> Has(O, c[2]) /\ KeyName(c[3]) = "cust"
+      [] OTHER -> TRUE
 
 PosEq(p, q) == Len(p) = Len(q) /\ \A d \in 1..Len(p) : RatEq(p[d], q[d])
 
@@ -216,7 +261,7 @@ Removable(O, c) ==
                                                    \/ (e[2] = s /\ OutDeg(O, e[1]) = 2)} ELSE {})
       [] c[1] = KPaint   -> O.E     \* decided for the nested actions by the seg configuration
       [] OTHER -> {}
-P_C03(x) == x.pf.forest =>
+P_C03(x) == (x.pf.forest /\ ~IsPrim(x.c)) =>
     /\ Forest(x.post)
     /\ (Conflicting(x.pre, x.c) => (Refused(x) /\ x.err \in {"InvalidActionError", "InvalidActionError!"}))
     /\ (Accepted(x) => (x.pre.E \ x.post.E) \subseteq Removable(x.pre, x.c))
@@ -234,15 +279,15 @@ Touched(x) == LET pn == {n \in Node : n \in NamedNodes(x.c)}
               IN pn \cup pt \cup po
 Untouched(x) == {n \in Present(x.pre) \cap Present(x.post) :
                     (Comp(x.pre, n) \cup Comp(x.post, n)) \cap Touched(x) = {}}
-P_C04(x) == (x.pf.forest /\ x.pf.tid /\ x.ok /\ ~IsSwitch(x.c)) =>
+P_C04(x) == (x.pf.forest /\ x.pf.tid /\ x.ok /\ ~IsSwitch(x.c) /\ ~IsPrim(x.c)) =>
     /\ TidOK(x.post)
     /\ (IsEdit(x.c) => \A n \in Untouched(x) : x.post.tid[n] = x.pre.tid[n])
-P_C05(x) == (x.pf.forest /\ x.pf.lid /\ LidOn(x.pre) /\ x.ok /\ ~IsSwitch(x.c)) =>
+P_C05(x) == (x.pf.forest /\ x.pf.lid /\ LidOn(x.pre) /\ x.ok /\ ~IsSwitch(x.c) /\ ~IsPrim(x.c)) =>
     /\ LidOK(x.post)
     /\ (IsEdit(x.c) => \A n \in Untouched(x) : x.post.lid[n] = x.pre.lid[n])
 
 \* --- C06 (state part; the query part needs the recorded answers) --------
-P_C06(x) == (x.pf.forest /\ x.pf.tid /\ x.pf.lid /\ x.pf.look /\ ~IsSwitch(x.c)) => LookupOK(x.post)
+P_C06(x) == (x.pf.forest /\ x.pf.tid /\ x.pf.lid /\ x.pf.look /\ ~IsSwitch(x.c) /\ ~IsPrim(x.c)) => LookupOK(x.post)
 
 \* --- C10 ---------------------------------------------------------------
 \* value of feature k on the elements that survive the call (for "a disabled feature is not changed")
@@ -272,36 +317,36 @@ P_C10(x) ==
              /\ ("iou" \in K => IoUOK(x.post)) /\ (K \cap ShapeKeys # {} => ShapeOK(x.post))
     /\ (x.c[1] = KDisable /\ x.ok) => (FeatSet(x.c[2]) \cap x.post.act = {})
     \* a disabled feature is not changed by edits (nor by undo / redo)
-    /\ (~IsSwitch(x.c)) => \A k \in Available \ x.pre.act : SameFeature(k, x.pre, x.post, x.c)
+    /\ (~IsSwitch(x.c) /\ ~IsPrim(x.c)) => \A k \in Available \ x.pre.act : SameFeature(k, x.pre, x.post, x.c)
     \* managed features and time are protected from attribute updates, enabled or not
     /\ ManagedKey(x.c) => (~x.ok /\ FullEq(x.post, x.pre))
 
 \* --- C11 ---------------------------------------------------------------
-P_C11(x) == (IsEdit(x.c) /\ Refused(x)) => (FullEq(x.post, x.pre) /\ x.emit = <<>>)
+P_C11(x) == (IsEdit(x.c) /\ Refused(x) /\ ~IsPrim(x.c)) => (FullEq(x.post, x.pre) /\ x.emit = <<>>)
 
 \* --- C20 ---------------------------------------------------------------
 CreatesNode(x) == x.c[1] = KAddNode \/ (x.c[1] = KPaint /\ x.c[4] # 0 /\ ~Has(x.pre, x.c[4]))
 NodeCreated(c) == IF c[1] = KAddNode THEN c[2] ELSE c[4]
 P_C20(x) ==
-    /\ (IsEdit(x.c) /\ x.ok) => (Len(x.emit) = 1 /\ (CreatesNode(x) => x.emit[1] = NodeCreated(x.c)))
-    /\ (IsEdit(x.c) /\ ~x.ok) => x.emit = <<>>
+    /\ (IsEdit(x.c) /\ x.ok /\ ~IsPrim(x.c)) => (Len(x.emit) = 1 /\ (CreatesNode(x) => x.emit[1] = NodeCreated(x.c)))
+    /\ ((IsEdit(x.c) /\ ~x.ok) \/ IsPrim(x.c)) => x.emit = <<>>
     /\ (x.c[1] \in {KUndo, KRedo}) => (Len(x.emit) = (IF x.ret THEN 1 ELSE 0))
     /\ IsSwitch(x.c) => x.emit = <<>>
 
 \* --- C01: the accepted edit, then undo(), then redo() --------------------
 \* x additionally has u_ret, u_post, r_ret, r_post
-P_C01(x) == (PFValid(x.pf) /\ Accepted(x)) =>
+P_C01(x) == (PFValid(x.pf) /\ Accepted(x) /\ (IsPrim(x.c) => PrimPre(x.pre, x.c))) =>
             /\ x.u_ret /\ ObsEq(x.pre, x.u_post)
             /\ x.r_ret /\ ObsEq(x.post, x.r_post)
 \* undo and redo of an accepted edit also keep the state invariants (C03..C09 "undo or redo")
-P_URValid(x) == (PFValid(x.pf) /\ Accepted(x)) => (Valid(x.u_post) /\ Valid(x.r_post))
+P_URValid(x) == (PFValid(x.pf) /\ Accepted(x) /\ ~IsPrim(x.c)) => (Valid(x.u_post) /\ Valid(x.r_post))
 
 \* --- C07..C09 ------------------------------------------------------------
-P_C07(x) == (HasSeg /\ x.pf.forest /\ x.pf.seg /\ x.ok) =>
+P_C07(x) == (HasSeg /\ x.pf.forest /\ x.pf.seg /\ x.ok /\ ~IsPrim(x.c)) =>
     /\ SegOK(x.post)
     /\ (x.c[1] = KPaint => \A q \in Stroke(x.c[2], x.c[3]) : x.post.seg[q] = x.c[4])
     /\ (x.c[1] = KPaint => \A q \in Pix \ Stroke(x.c[2], x.c[3]) : x.post.seg[q] = x.pre.seg[q])
-P_C08(x) == (HasSeg /\ PFValid(x.pf) /\ x.ok /\ ~IsSwitch(x.c)) => (AreaOK(x.post) /\ PosOK(x.post) /\ ShapeOK(x.post))
-P_C09(x) == (HasSeg /\ PFValid(x.pf) /\ x.ok /\ (IsSwitch(x.c) => x.c[1] = KEnable /\ x.c[3] = 1)) => IoUOK(x.post)
+P_C08(x) == (HasSeg /\ PFValid(x.pf) /\ x.ok /\ ~IsSwitch(x.c) /\ ~IsPrim(x.c)) => (AreaOK(x.post) /\ PosOK(x.post) /\ ShapeOK(x.post))
+P_C09(x) == (HasSeg /\ PFValid(x.pf) /\ x.ok /\ ~IsPrim(x.c) /\ (IsSwitch(x.c) => x.c[1] = KEnable /\ x.c[3] = 1)) => IoUOK(x.post)
 
 =============================================================================
